@@ -1039,6 +1039,15 @@ class Dyn(Calls):
         return VTuple([VStr(z3.If(found, z3.SubString(sv, 0, i), sv)), VStr(z3.If(found, sep, z3.StringVal(""))),
                        VStr(z3.If(found, z3.SubString(sv, i + m, n - i - m), z3.StringVal("")))])
 
+    def m_str_rpartition(self, recv, args, kwargs):
+        """s.rpartition(sep): (head, sep, tail) split at the LAST occurrence of sep; ('', '', s) when sep does not occur."""
+        sv, sep = recv.t, args[0].t
+        i = z3.LastIndexOf(sv, sep)
+        found = i >= 0
+        n, m = z3.Length(sv), z3.Length(sep)
+        return VTuple([VStr(z3.If(found, z3.SubString(sv, 0, i), z3.StringVal(""))), VStr(z3.If(found, sep, z3.StringVal(""))),
+                       VStr(z3.If(found, z3.SubString(sv, i + m, n - i - m), sv))])
+
     def m_str_replace(self, recv, args, kwargs):
         """s.replace(a, b): modelled with the first-occurrence replacement; exact when a occurs at most once (obligation below)."""
         a_, b_ = args[0].t, args[1].t
